@@ -37,7 +37,16 @@ func Quiet() {
 // from one state so that a run replays exactly from VERIF_SEED.
 type R struct{ s uint64 }
 
-func NewR(seed uint64) *R { return &R{s: seed*0x9E3779B97F4A7C15 + 0x1234567} }
+// NewR keys the generator with a hash of the seed: the raw seed times the
+// stream increment would make the stream of seed k+1 the stream of seed k
+// shifted by one draw, so several seeds would add no diversity.
+func NewR(seed uint64) *R {
+	z := seed + 0x632BE59BD9B4E019
+	z = (z ^ (z >> 30)) * 0xBF58476D1CE4E5B9
+	z = (z ^ (z >> 27)) * 0x94D049BB133111EB
+	z ^= z >> 31
+	return &R{s: z ^ 0x1234567}
+}
 
 func (r *R) U64() uint64 {
 	r.s += 0x9E3779B97F4A7C15
